@@ -93,7 +93,8 @@ def noncoding_fn(k, strand, biotype):
 # ------------------------------------------------------------------ coding genes on a concrete genome
 #          0         1         2         3         4
 #          012345678901234567890123456789012345678901234567
-GENOME = "CCATGAAATAGGCTTGACCTGGTGAAGTAAATGCATTAGCCCATGTGA"  # starts ATG/TTG/CTG/GTG, stops TAG/TGA/TAA in several frames
+GENOME = "TTGTGATGCAGGCTTGACCTGGTGAAGTAAATGCATTAGCCCATGTGA"  # first codons within reach of the CDS-start space: TTG (tables 1, 11), GTG (11), TGA, ATG, non-starts;
+# further starts ATG/TTG/CTG/GTG and stops TAG/TGA/TAA in several frames on both strands
 COMP = {"A": "T", "C": "G", "G": "C", "T": "A"}
 TABLES = {0: TranslationTable.DEFAULT, 1: TranslationTable.STANDARD, 11: TranslationTable.PROKARYOTE}
 
@@ -301,8 +302,8 @@ def obligations(tier):
                                bounds="%d exons, unbounded symbolic coordinates, biotype %s" % (k, bt.name), examples=[ex]))
         for flavor in (GenbankFlavor.EUKARYOTIC, GenbankFlavor.PROKARYOTIC):
             for table in ((0, 11) if quick else (0, 1, 11)):
-                if quick and flavor == GenbankFlavor.PROKARYOTIC and table == 0:
-                    continue
+                if quick and flavor == GenbankFlavor.PROKARYOTIC and table == (0 if strand is MINUS else 11):
+                    continue  # quick: the prokaryotic flavour with the default table on plus, with table 11 on minus
                 out.append(Obl("coding_%s_%s_table%d" % (sn, flavor.name.lower(), table), coding_fn(strand, flavor, table),
                                dict(es=int, el=int, co=int, cl=int, frame=int), coding_pre, budget=340, cost=120,
                                desc="coding gene exported through collection_to_tbl: header, gene/mRNA/CDS features (no mRNA in the prokaryotic flavour), "
